@@ -589,6 +589,22 @@ def gen_focus_ttl(rng):
         if r < 0.75:
             return {'op': 'count', 'filter': {}, 'skip': 0, 'limit': None}
         return {'op': 'distinct', 'key': '_id', 'filter': {}}
+    if rng.random() < 0.3:
+        # a deadline crossed by a SUB-SECOND clock step, with only reads in between
+        t = rng.choice([0, 10])
+        n = rng.choice([5, 60])
+        delta = rng.choice([300000, 500000, 900000, 1])            # microseconds after the first read
+        ops = [{'op': 'clock', 't': t * 1000000},
+               {'op': 'create_index', 'key': [['d', 1]], 'unique': False, 'sparse': False, 'ttl': n, 'name': 't1'},
+               {'op': 'insert_one', 'doc': {'_id': 1, 'd': T0 + datetime.timedelta(seconds=t - n, microseconds=delta)}},
+               {'op': 'insert_one', 'doc': {'_id': 2, 'd': T0 + datetime.timedelta(seconds=t + 50)}},
+               read()]
+        step = rng.choice([delta, delta + 100000, delta - 1, delta + 1])
+        ops.append({'op': 'clock', 't': t * 1000000 + step})
+        ops.append(read())
+        ops.append({'op': 'clock', 't': t * 1000000 + step + rng.choice([1, 200000])})
+        ops.append(read())
+        return ops
     t = rng.choice([0, 10, 100])
     ops = [{'op': 'clock', 't': t * 1000000},
            {'op': 'create_index', 'key': [['d', 1]], 'unique': False, 'sparse': False,
@@ -642,18 +658,18 @@ def gen_focus_arrays(rng):
         f = rng.choice(['l', 'l', 'm.l'])
         v = rng.choice(pool)
         r = rng.random()
-        if r < 0.3:
+        if r < 0.25:
             u = {'$pull': {f: v if rng.random() < 0.7 else {'$gte': 1}}}
-        elif r < 0.45:
+        elif r < 0.37:
             u = {'$pullAll': {f: [v, rng.choice(pool)]}}
-        elif r < 0.6:
+        elif r < 0.5:
             u = {'$addToSet': {f: v if rng.random() < 0.6 else {'$each': [v, rng.choice(pool), v]}}}
         elif r < 0.85:
             mods = {'$each': [rng.choice(pool) for _ in range(rng.choice([0, 1, 2]))]}
             if rng.random() < 0.5:
                 mods['$position'] = rng.choice([0, 1, -1, 9])
-            if rng.random() < 0.5:
-                mods['$slice'] = rng.choice([0, 2, -2, 9])
+            if rng.random() < 0.65:
+                mods['$slice'] = rng.choice([0, 2, 9, 3] + list(range(-2, -10, -1)) + [-3, -5, -7])
             u = {'$push': {f: mods if rng.random() < 0.7 else v}}
         else:
             u = {'$pop': {f: rng.choice([1, -1])}}
